@@ -16,6 +16,7 @@ from ..world import find_method, find_message
 from . import c09
 
 ID = "C18"
+UNKNOWN_REPLY_FIELDS = True      # REST replies of a NEWER server (a field this client does not know) must decode all the same
 UUID4 = re.compile(r"^[0-9a-f]{8}-[0-9a-f]{4}-4[0-9a-f]{3}-[89ab][0-9a-f]{3}-[0-9a-f]{12}$")
 
 PROFILE = grammar.profile(
